@@ -87,6 +87,11 @@ def get_formula_fname(script_fname: str, environment: Optional[Environment]=None
 
 class SmtLibExecutionCache(object):
     """Execution environment for SMT2 script execution"""
+
+    # Marks, in the stack of the bindings of a name, the point in
+    # which the name has been defined (define-fun, define-sort)
+    _DEFINED = object()
+
     def __init__(self, env: Environment):
         self.substitute = env.substituter.substitute
         self.keys: Dict[str, List[Union[str, Callable, PySMTType, FNode, _TypeDecl]]] = {}
@@ -104,6 +109,9 @@ class SmtLibExecutionCache(object):
 
     def define(self, name: str, parameters: List[FNode], expression: Union[PySMTType, FNode, PartialType, str]):
         self.definitions[name] = (parameters, expression)
+        # Bindings that are more recent than the definition (e.g., a
+        # quantified or let variable with the same name) shadow it
+        self.bind(name, SmtLibExecutionCache._DEFINED)
 
     def _define_adapter(self, formal_parameters: List[FNode], expression: FNode) -> Callable:
         def res(*actual_parameters):
@@ -114,6 +122,9 @@ class SmtLibExecutionCache(object):
 
     def get(self, name: str) -> Any:
         """Returns the last binding for 'name'"""
+        lst = self.keys.get(name)
+        if lst and lst[-1] is not SmtLibExecutionCache._DEFINED:
+            return lst[-1]
         if name in self.definitions:
             (parameters, expression) = self.definitions[name]
             if len(parameters) == 0:
